@@ -50,7 +50,10 @@ RULE_ADDED = (
               ' '
               'Round 19: a request that ends without any verdict (an exception that ends the ma'
               'nager, a reply without an integer errorcode) is reported here too, not only by C'
-              '03. ')
+              '03. '
+              ' '
+              'Round 20: every well-formed base request also with its members reversed, sorted '
+              'and shuffled. ')
 RULE = RULE + " " + RULE_ADDED.strip()
 ASSUMPTIONS = [
     "the reference classifier (pv/oracle/docs_protocol.py) is a reading of docs/protocol.md and "
@@ -361,6 +364,13 @@ def gen_requests(spec):
             k += 1
             if k % n == sh:
                 yield v1, name, "valid", copy.deepcopy(base)
+            # ... and with the members of its objects written in another order
+            for how in ("reversed", "sorted", "shuffled"):
+                k += 1
+                if k % n == sh:
+                    from ..gen import requests as _rq
+                    yield v1, name, "valid", _rq.reorder_members(
+                        random.Random(k), copy.deepcopy(base), how)
             paths = field_paths(base)
             for p in paths:
                 for val in VALUES:
